@@ -546,7 +546,7 @@ func oned39Arbitrary(c *Ctx) {
 		}
 		oned39Steps(c, r0, bs)
 	}
-	n := c.Pick(9000, 400000)
+	n := c.Pick(30000, 600000)
 	c.Parallel(n, 16, func(i int, r *Rng) {
 		kind := oned39Kinds[i%3]
 		var bs []bool
@@ -616,7 +616,7 @@ func oned39Content(r *Rng, kind string) (content, want string) {
 }
 
 func oned39Rendered(c *Ctx) {
-	n := c.Pick(2400, 90000)
+	n := c.Pick(9000, 150000)
 	c.Parallel(n, 16, func(i int, r *Rng) {
 		kind := oned39Kinds[i%3]
 		content, want := oned39Content(r, kind)
